@@ -12,18 +12,37 @@ package internal
 func gh_po_in[K comparable, V any](l *List[K, V], e *Entry[K, V]) bool  { panic("ghost") }
 func gh_po_ord[K comparable, V any](l *List[K, V], e *Entry[K, V]) real { panic("ghost") }
 
-// link accessors as specification functions (t: list type)
-func sp_nx[K comparable, V any](e *Entry[K, V], t uint8) *Entry[K, V] {
-	if t == WHEEL_LIST {
+// timer-wheel slot lists use their own ghost state, so that policy regions and wheel slots never
+// interfere (they also use different link fields)
+func gh_po_win[K comparable, V any](l *List[K, V], e *Entry[K, V]) bool  { panic("ghost") }
+func gh_po_word[K comparable, V any](l *List[K, V], e *Entry[K, V]) real { panic("ghost") }
+
+// link accessors as specification functions (k: list type; only "wheel or not" matters)
+func sp_nx[K comparable, V any](e *Entry[K, V], k uint8) *Entry[K, V] {
+	if k == WHEEL_LIST {
 		return e.meta.wheelNext
 	}
 	return e.meta.next
 }
-func sp_pv[K comparable, V any](e *Entry[K, V], t uint8) *Entry[K, V] {
-	if t == WHEEL_LIST {
+func sp_pv[K comparable, V any](e *Entry[K, V], k uint8) *Entry[K, V] {
+	if k == WHEEL_LIST {
 		return e.meta.wheelPrev
 	}
 	return e.meta.prev
+}
+
+// membership and order label of x in l for link kind k
+func sp_in[K comparable, V any](l *List[K, V], x *Entry[K, V], k uint8) bool {
+	if k == WHEEL_LIST {
+		return gh_po_win(l, x)
+	}
+	return gh_po_in(l, x)
+}
+func sp_ord[K comparable, V any](l *List[K, V], x *Entry[K, V], k uint8) real {
+	if k == WHEEL_LIST {
+		return gh_po_word(l, x)
+	}
+	return gh_po_ord(l, x)
 }
 
 func sp_validType(t uint8) bool {
@@ -47,167 +66,256 @@ func sp_regionBit(t uint8) int8 {
 func sp_isRoot(f int8) bool { return f&1 != 0 }
 
 // label of a node, the sentinel counting as 0
-func sp_lab[K comparable, V any](l *List[K, V], x *Entry[K, V]) real {
+func sp_lab[K comparable, V any](l *List[K, V], x *Entry[K, V], k uint8) real {
 	if x == &l.root {
 		return 0
 	}
-	return gh_po_ord(l, x)
+	return sp_ord(l, x, k)
 }
 
 // x is the sentinel or a member of l
-func sp_node[K comparable, V any](l *List[K, V], x *Entry[K, V]) bool {
-	return x == &l.root || gh_po_in(l, x)
+func sp_node[K comparable, V any](l *List[K, V], x *Entry[K, V], k uint8) bool {
+	return x == &l.root || sp_in(l, x, k)
 }
 
-// ring shape: members and the sentinel are linked consistently through the list's link fields
-func sp_listShape[K comparable, V any](l *List[K, V]) bool {
-	return sp_validType(l.listType) && sp_isRoot(l.root.flag.Flags) && !gh_po_in(l, &l.root) && !gh_po_in(l, nil) &&
-		sp_node(l, sp_nx(&l.root, l.listType)) && sp_node(l, sp_pv(&l.root, l.listType)) &&
-		sp_pv(sp_nx(&l.root, l.listType), l.listType) == &l.root && sp_nx(sp_pv(&l.root, l.listType), l.listType) == &l.root &&
+// ring shape: members and the sentinel are linked consistently through the link fields of kind k
+func sp_listShape[K comparable, V any](l *List[K, V], k uint8) bool {
+	return !sp_in(l, &l.root, k) && !sp_in(l, nil, k) &&
+		sp_node(l, sp_nx(&l.root, k), k) && sp_node(l, sp_pv(&l.root, k), k) &&
+		sp_pv(sp_nx(&l.root, k), k) == &l.root && sp_nx(sp_pv(&l.root, k), k) == &l.root &&
 		all(func(x *Entry[K, V]) bool {
-			return imp(gh_po_in(l, x), !sp_isRoot(x.flag.Flags) &&
-				sp_node(l, sp_nx(x, l.listType)) && sp_node(l, sp_pv(x, l.listType)) &&
-				sp_pv(sp_nx(x, l.listType), l.listType) == x && sp_nx(sp_pv(x, l.listType), l.listType) == x)
+			return imp(sp_in(l, x, k),
+				sp_node(l, sp_nx(x, k), k) && sp_node(l, sp_pv(x, k), k) &&
+					sp_pv(sp_nx(x, k), k) == x && sp_nx(sp_pv(x, k), k) == x)
 		})
 }
 
 // order: labels of members are positive and distinct, increase along next up to the sentinel, and the
 // successor carries the least label above (no member lies outside the sentinel's cycle)
-func sp_listOrder[K comparable, V any](l *List[K, V]) bool {
-	return all(func(x *Entry[K, V]) bool { return imp(gh_po_in(l, x), gh_po_ord(l, x) > 0) }) &&
+func sp_listOrder[K comparable, V any](l *List[K, V], k uint8) bool {
+	return all(func(x *Entry[K, V]) bool { return imp(sp_in(l, x, k), sp_ord(l, x, k) > 0) }) &&
 		all(func(x *Entry[K, V]) bool {
 			return all(func(y *Entry[K, V]) bool {
-				return imp(gh_po_in(l, x) && gh_po_in(l, y) && x != y, gh_po_ord(l, x) != gh_po_ord(l, y))
+				return imp(sp_in(l, x, k) && sp_in(l, y, k) && x != y, sp_ord(l, x, k) != sp_ord(l, y, k))
 			})
 		}) &&
 		all(func(x *Entry[K, V]) bool {
 			return all(func(y *Entry[K, V]) bool {
-				return imp(sp_node(l, x) && gh_po_in(l, y) && sp_lab(l, y) > sp_lab(l, x),
-					sp_nx(x, l.listType) != &l.root && sp_lab(l, sp_nx(x, l.listType)) > sp_lab(l, x) && sp_lab(l, sp_nx(x, l.listType)) <= sp_lab(l, y))
+				return imp(sp_node(l, x, k) && sp_in(l, y, k) && sp_lab(l, y, k) > sp_lab(l, x, k),
+					sp_nx(x, k) != &l.root && sp_lab(l, sp_nx(x, k), k) > sp_lab(l, x, k) && sp_lab(l, sp_nx(x, k), k) <= sp_lab(l, y, k))
 			})
 		})
 }
 
-// region flag <=> membership (policy lists), recorded size and count
-func sp_listAcct[K comparable, V any](l *List[K, V]) bool {
-	return l.count == card(l) && l.len == wsum(l) &&
-		all(func(x *Entry[K, V]) bool {
-			return imp(gh_po_in(l, x), x.flag.Flags&(2|4|64) == sp_regionBit(l.listType))
-		})
+// ---- abstract (opaque) list predicates: revealed in the list functions, folded everywhere else -------------
+
+// ring of a policy-region list: shape and order over the prev/next links (footprint: those links and the
+// policy ghost state only)
+func op_ring[K comparable, V any](l *List[K, V]) bool {
+	return l != nil && sp_listShape(l, LIST_WINDOW) && sp_listOrder(l, LIST_WINDOW)
+}
+
+// ring of a timer-wheel slot list: over the wheelPrev/wheelNext links and the wheel ghost state
+func op_wring[K comparable, V any](l *List[K, V]) bool {
+	return l != nil && sp_listShape(l, WHEEL_LIST) && sp_listOrder(l, WHEEL_LIST)
+}
+
+// the ring predicate that applies to l
+func sp_ring[K comparable, V any](l *List[K, V]) bool {
+	return l != nil && sp_validType(l.listType) && imp(l.listType == WHEEL_LIST, op_wring(l)) && imp(l.listType != WHEEL_LIST, op_ring(l))
+}
+
+// recorded count and size equal the number and total cost of the members (policy lists)
+func op_acct[K comparable, V any](l *List[K, V]) bool {
+	return l.listType != WHEEL_LIST && l.count == card(l) && l.len == wsum(l)
+}
+
+// the sentinel carries the root flag, members do not; members of a policy region carry exactly the
+// region flag of their list (so different regions are disjoint)
+func op_flags[K comparable, V any](l *List[K, V]) bool {
+	return sp_isRoot(l.root.flag.Flags) && all(func(x *Entry[K, V]) bool {
+		return imp(sp_in(l, x, l.listType), !sp_isRoot(x.flag.Flags) && imp(l.listType != WHEEL_LIST, x.flag.Flags&(2|4|64) == sp_regionBit(l.listType)))
+	})
 }
 
 // full invariant of a policy-region list
 func sp_listInv[K comparable, V any](l *List[K, V]) bool {
-	return l != nil && l.listType != WHEEL_LIST && sp_listShape(l) && sp_listOrder(l) && sp_listAcct(l)
+	return l != nil && l.listType != WHEEL_LIST && sp_validType(l.listType) && sp_isRoot(l.root.flag.Flags) && op_ring(l) && op_acct(l) && op_flags(l)
+}
+
+// invariant of a timer-wheel slot list (count and len are not maintained for these)
+func sp_wlistInv[K comparable, V any](l *List[K, V]) bool {
+	return l != nil && l.listType == WHEEL_LIST && sp_isRoot(l.root.flag.Flags) && op_wring(l) && op_flags(l)
+}
+
+// m is a different policy region than l
+func sp_otherRegion[K comparable, V any](l, m *List[K, V]) bool {
+	return m != l && m != nil && m.listType != l.listType && m.listType != WHEEL_LIST && l.listType != WHEEL_LIST
+}
+
+// ---- two-state frame helpers ------------------------------------------------------------------------------
+
+func sp_linksSame[K comparable, V any](x *Entry[K, V]) bool {
+	return x.meta.prev == old(x.meta.prev) && x.meta.next == old(x.meta.next) && x.meta.wheelPrev == old(x.meta.wheelPrev) && x.meta.wheelNext == old(x.meta.wheelNext)
+}
+
+// an operation on l leaves the links of the other kind alone, everywhere
+func sp_otherKindSame[K comparable, V any](l *List[K, V]) bool {
+	return all(func(x *Entry[K, V]) bool {
+		return imp(l.listType == WHEEL_LIST, x.meta.prev == old(x.meta.prev) && x.meta.next == old(x.meta.next)) &&
+			imp(l.listType != WHEEL_LIST, x.meta.wheelPrev == old(x.meta.wheelPrev) && x.meta.wheelNext == old(x.meta.wheelNext))
+	})
+}
+
+// ghost state of every other list is untouched
+func sp_ghostOthersSame[K comparable, V any](l *List[K, V]) bool {
+	return all(func(m *List[K, V]) bool {
+		return all(func(x *Entry[K, V]) bool {
+			return imp(m != l, gh_po_in(m, x) == old(gh_po_in(m, x)) && gh_po_ord(m, x) == old(gh_po_ord(m, x)) &&
+				gh_po_win(m, x) == old(gh_po_win(m, x)) && gh_po_word(m, x) == old(gh_po_word(m, x)))
+		})
+	})
+}
+
+// summary clauses: what an operation on l (touching entry e) means for every other list m
+//   - another policy region keeps its whole invariant and its sizes (regions are disjoint by their flags)
+//   - a policy list is indifferent to wheel-list operations and vice versa (different links and ghost state)
+func sp_othersKeep[K comparable, V any](l *List[K, V], e *Entry[K, V]) bool {
+	return all(func(m *List[K, V]) bool {
+		return imp(sp_otherRegion(l, m) && old(sp_listInv(m)) && old(op_flags(l)) && old(e == nil || e.flag.Flags&(2|4|64) == 0 || gh_po_in(l, e)),
+			sp_listInv(m) && m.len == old(m.len) && m.count == old(m.count))
+	}) && all(func(m *List[K, V]) bool {
+		return imp(l.listType == WHEEL_LIST && m != l && old(sp_listInv(m)), sp_listInv(m) && m.len == old(m.len) && m.count == old(m.count))
+	}) && all(func(m *List[K, V]) bool {
+		return imp(l.listType != WHEEL_LIST && m != l && old(sp_wlistInv(m)), sp_wlistInv(m))
+	})
 }
 
 // ---- list operations ----------------------------------------------------------------------------------------
 
 // insert e after at
 func (l *List[K, V]) spec_insert(e, at *Entry[K, V]) {
-	requires("inv", sp_listShape(l) && sp_listOrder(l))
-	requires("at", sp_node(l, at))
-	requires("e", e != nil && e != &l.root && !gh_po_in(l, e) && !sp_isRoot(e.flag.Flags))
+	reveal("op_ring", "op_wring", "op_acct", "op_flags")
+	requires("inv", sp_ring(l))
+	requires("at", sp_node(l, at, l.listType))
+	// e is not a member yet: either directly, or because it carries no region flag while every member does
+	requires("e", e != nil && e != &l.root && !sp_isRoot(e.flag.Flags) &&
+		(!sp_in(l, e, l.listType) || (l.listType != WHEEL_LIST && e.flag.Flags&(2|4|64) == 0 && op_flags(l))))
 	// ghost: e becomes a member, labelled strictly between at and its successor
-	set(gh_po_in(l, e), true)
-	set(gh_po_ord(l, e), ifelse(old(sp_nx(at, l.listType)) == &l.root, old(sp_lab(l, at))+1, (old(sp_lab(l, at))+old(sp_lab(l, sp_nx(at, l.listType))))/2))
-	ensures("member", gh_po_in(l, e) && all(func(x *Entry[K, V]) bool { return imp(x != e, gh_po_in(l, x) == old(gh_po_in(l, x))) }))
-	ensures("labels", all(func(x *Entry[K, V]) bool { return imp(x != e, gh_po_ord(l, x) == old(gh_po_ord(l, x))) }))
+	if l.listType == WHEEL_LIST {
+		set(gh_po_win(l, e), true)
+		set(gh_po_word(l, e), ifelse(old(sp_nx(at, WHEEL_LIST)) == &l.root, old(sp_lab(l, at, WHEEL_LIST))+1, (old(sp_lab(l, at, WHEEL_LIST))+old(sp_lab(l, sp_nx(at, WHEEL_LIST), WHEEL_LIST)))/2))
+	} else {
+		set(gh_po_in(l, e), true)
+		set(gh_po_ord(l, e), ifelse(old(sp_nx(at, LIST_WINDOW)) == &l.root, old(sp_lab(l, at, LIST_WINDOW))+1, (old(sp_lab(l, at, LIST_WINDOW))+old(sp_lab(l, sp_nx(at, LIST_WINDOW), LIST_WINDOW)))/2))
+	}
+	ensures("member", sp_in(l, e, l.listType) && all(func(x *Entry[K, V]) bool { return imp(x != e, sp_in(l, x, l.listType) == old(sp_in(l, x, l.listType))) }))
+	ensures("frame_labels", all(func(x *Entry[K, V]) bool {
+		return imp(x != e, sp_ord(l, x, l.listType) == old(sp_ord(l, x, l.listType)))
+	}))
 	ensures("after_at", sp_nx(at, l.listType) == e && sp_pv(e, l.listType) == at && sp_nx(e, l.listType) == old(sp_nx(at, l.listType)))
-	ensures("shape", sp_listShape(l))
-	ensures("order", sp_listOrder(l))
+	ensures("ring", sp_ring(l))
+	ensures("acct", imp(old(op_acct(l)), op_acct(l)))
+	ensures("flags", imp(old(op_flags(l)) && !old(sp_isRoot(e.flag.Flags)) && (l.listType == WHEEL_LIST || old(e.flag.Flags&(2|4|64) == 0)), op_flags(l)))
 	ensures("len", l.len == old(l.len)+e.policyWeight && l.count == old(l.count)+1)
 	ensures("flag", e.flag.Flags == old(e.flag.Flags)|sp_regionBit(l.listType))
-	ensures("other_flags", all(func(x *Entry[K, V]) bool { return imp(x != e, x.flag.Flags == old(x.flag.Flags)) }))
-	ensures("weights", all(func(x *Entry[K, V]) bool { return x.policyWeight == old(x.policyWeight) }))
+	ensures("flags_others", all(func(x *Entry[K, V]) bool { return imp(x != e, x.flag.Flags == old(x.flag.Flags)) }))
+	ensures("weights_same", all(func(x *Entry[K, V]) bool { return x.policyWeight == old(x.policyWeight) }))
 	// frame on links: only e, at and at's old successor are touched, and only the link kind of this list
 	ensures("frame_links", all(func(x *Entry[K, V]) bool {
-		return imp(x != e && x != at && x != old(sp_nx(at, l.listType)),
-			x.meta.prev == old(x.meta.prev) && x.meta.next == old(x.meta.next) && x.meta.wheelPrev == old(x.meta.wheelPrev) && x.meta.wheelNext == old(x.meta.wheelNext))
+		return imp(x != e && x != at && x != old(sp_nx(at, l.listType)), sp_linksSame(x))
 	}))
-	ensures("frame_other_kind", all(func(x *Entry[K, V]) bool {
-		return imp(l.listType == WHEEL_LIST, x.meta.prev == old(x.meta.prev) && x.meta.next == old(x.meta.next)) &&
-			imp(l.listType != WHEEL_LIST, x.meta.wheelPrev == old(x.meta.wheelPrev) && x.meta.wheelNext == old(x.meta.wheelNext))
-	}))
-	ensures("frame_lists", all(func(m *List[K, V]) bool {
-		return imp(m != l, m.len == old(m.len) && m.count == old(m.count) && all(func(x *Entry[K, V]) bool {
-			return gh_po_in(m, x) == old(gh_po_in(m, x)) && gh_po_ord(m, x) == old(gh_po_ord(m, x))
-		}))
-	}))
+	ensures("frame_other_kind", sp_otherKindSame(l))
+	ensures("nonmembers", all(func(x *Entry[K, V]) bool { return imp(!old(sp_node(l, x, l.listType)) && x != e, sp_linksSame(x)) }))
+	ensures("sizes_others", all(func(m *List[K, V]) bool { return imp(m != l, m.len == old(m.len) && m.count == old(m.count)) }))
+	ensures("ghost_others", sp_ghostOthersSame(l))
+	ensures("others", sp_othersKeep(l, e))
 }
 
 // remove e from the list
 func (l *List[K, V]) spec_remove(e *Entry[K, V]) {
-	requires("inv", sp_listShape(l) && sp_listOrder(l))
-	requires("member", gh_po_in(l, e))
-	set(gh_po_in(l, e), false)
-	ensures("member", !gh_po_in(l, e) && all(func(x *Entry[K, V]) bool { return imp(x != e, gh_po_in(l, x) == old(gh_po_in(l, x))) }))
-	ensures("labels", all(func(x *Entry[K, V]) bool { return gh_po_ord(l, x) == old(gh_po_ord(l, x)) }))
+	reveal("op_ring", "op_wring", "op_acct", "op_flags")
+	requires("inv", sp_ring(l))
+	requires("member", sp_in(l, e, l.listType))
+	if l.listType == WHEEL_LIST {
+		set(gh_po_win(l, e), false)
+	} else {
+		set(gh_po_in(l, e), false)
+	}
+	ensures("member", !sp_in(l, e, l.listType) && all(func(x *Entry[K, V]) bool { return imp(x != e, sp_in(l, x, l.listType) == old(sp_in(l, x, l.listType))) }))
+	ensures("frame_labels", all(func(x *Entry[K, V]) bool { return sp_ord(l, x, l.listType) == old(sp_ord(l, x, l.listType)) }))
 	ensures("unlinked", sp_nx(e, l.listType) == nil && sp_pv(e, l.listType) == nil)
-	ensures("shape", sp_listShape(l))
-	ensures("order", sp_listOrder(l))
+	ensures("ring", sp_ring(l))
+	ensures("acct", imp(old(op_acct(l)), op_acct(l)))
+	ensures("flags", imp(old(op_flags(l)), op_flags(l)))
 	ensures("len", l.len == old(l.len)-e.policyWeight && l.count == old(l.count)-1)
 	ensures("flag", e.flag.Flags == ifelse(l.listType == WHEEL_LIST, old(e.flag.Flags), old(e.flag.Flags)&^(2|4|64)))
-	ensures("other_flags", all(func(x *Entry[K, V]) bool { return imp(x != e, x.flag.Flags == old(x.flag.Flags)) }))
-	ensures("weights", all(func(x *Entry[K, V]) bool { return x.policyWeight == old(x.policyWeight) }))
+	ensures("flags_others", all(func(x *Entry[K, V]) bool { return imp(x != e, x.flag.Flags == old(x.flag.Flags)) }))
+	ensures("weights_same", all(func(x *Entry[K, V]) bool { return x.policyWeight == old(x.policyWeight) }))
 	ensures("frame_links", all(func(x *Entry[K, V]) bool {
-		return imp(x != e && x != old(sp_pv(e, l.listType)) && x != old(sp_nx(e, l.listType)),
-			x.meta.prev == old(x.meta.prev) && x.meta.next == old(x.meta.next) && x.meta.wheelPrev == old(x.meta.wheelPrev) && x.meta.wheelNext == old(x.meta.wheelNext))
+		return imp(x != e && x != old(sp_pv(e, l.listType)) && x != old(sp_nx(e, l.listType)), sp_linksSame(x))
 	}))
-	ensures("frame_other_kind", all(func(x *Entry[K, V]) bool {
-		return imp(l.listType == WHEEL_LIST, x.meta.prev == old(x.meta.prev) && x.meta.next == old(x.meta.next)) &&
-			imp(l.listType != WHEEL_LIST, x.meta.wheelPrev == old(x.meta.wheelPrev) && x.meta.wheelNext == old(x.meta.wheelNext))
-	}))
-	ensures("frame_lists", all(func(m *List[K, V]) bool {
-		return imp(m != l, m.len == old(m.len) && m.count == old(m.count) && all(func(x *Entry[K, V]) bool {
-			return gh_po_in(m, x) == old(gh_po_in(m, x)) && gh_po_ord(m, x) == old(gh_po_ord(m, x))
-		}))
-	}))
+	ensures("frame_other_kind", sp_otherKindSame(l))
+	ensures("nonmembers", all(func(x *Entry[K, V]) bool { return imp(!old(sp_node(l, x, l.listType)), sp_linksSame(x)) }))
+	ensures("sizes_others", all(func(m *List[K, V]) bool { return imp(m != l, m.len == old(m.len) && m.count == old(m.count)) }))
+	ensures("ghost_others", sp_ghostOthersSame(l))
+	ensures("others", sp_othersKeep(l, e))
 }
 
 // move e to just after at (e and at in l); members, sizes and flags are unchanged
 func (l *List[K, V]) spec_move(e, at *Entry[K, V]) {
-	requires("inv", sp_listShape(l) && sp_listOrder(l))
-	requires("nodes", gh_po_in(l, e) && sp_node(l, at))
+	reveal("op_ring", "op_wring", "op_acct", "op_flags")
+	requires("inv", sp_ring(l))
+	requires("nodes", sp_in(l, e, l.listType) && sp_node(l, at, l.listType))
 	if e != at && old(sp_nx(at, l.listType)) != e {
-		set(gh_po_ord(l, e), ifelse(old(sp_nx(at, l.listType)) == &l.root, old(sp_lab(l, at))+1, (old(sp_lab(l, at))+old(sp_lab(l, sp_nx(at, l.listType))))/2))
+		if l.listType == WHEEL_LIST {
+			set(gh_po_word(l, e), ifelse(old(sp_nx(at, WHEEL_LIST)) == &l.root, old(sp_lab(l, at, WHEEL_LIST))+1, (old(sp_lab(l, at, WHEEL_LIST))+old(sp_lab(l, sp_nx(at, WHEEL_LIST), WHEEL_LIST)))/2))
+		} else {
+			set(gh_po_ord(l, e), ifelse(old(sp_nx(at, LIST_WINDOW)) == &l.root, old(sp_lab(l, at, LIST_WINDOW))+1, (old(sp_lab(l, at, LIST_WINDOW))+old(sp_lab(l, sp_nx(at, LIST_WINDOW), LIST_WINDOW)))/2))
+		}
 	}
-	ensures("members", all(func(x *Entry[K, V]) bool { return gh_po_in(l, x) == old(gh_po_in(l, x)) }))
-	ensures("labels", all(func(x *Entry[K, V]) bool { return imp(x != e, gh_po_ord(l, x) == old(gh_po_ord(l, x))) }))
+	ensures("members", all(func(x *Entry[K, V]) bool { return sp_in(l, x, l.listType) == old(sp_in(l, x, l.listType)) }))
+	ensures("frame_labels", all(func(x *Entry[K, V]) bool {
+		return imp(x != e, sp_ord(l, x, l.listType) == old(sp_ord(l, x, l.listType)))
+	}))
 	ensures("after_at", imp(e != at, sp_nx(at, l.listType) == e && sp_pv(e, l.listType) == at))
-	ensures("shape", sp_listShape(l))
-	ensures("order", sp_listOrder(l))
+	ensures("ring", sp_ring(l))
+	ensures("acct", imp(old(op_acct(l)), op_acct(l)))
+	ensures("flags", imp(old(op_flags(l)), op_flags(l)))
 	ensures("sizes", l.len == old(l.len) && l.count == old(l.count))
-	ensures("flags", all(func(x *Entry[K, V]) bool {
+	ensures("flags_same", all(func(x *Entry[K, V]) bool {
 		return x.flag.Flags == old(x.flag.Flags) && x.policyWeight == old(x.policyWeight)
 	}))
-	ensures("frame_other_kind", all(func(x *Entry[K, V]) bool {
-		return imp(l.listType == WHEEL_LIST, x.meta.prev == old(x.meta.prev) && x.meta.next == old(x.meta.next)) &&
-			imp(l.listType != WHEEL_LIST, x.meta.wheelPrev == old(x.meta.wheelPrev) && x.meta.wheelNext == old(x.meta.wheelNext))
-	}))
-	ensures("frame_nonmembers", all(func(x *Entry[K, V]) bool {
-		return imp(!sp_node(l, x), x.meta.prev == old(x.meta.prev) && x.meta.next == old(x.meta.next) && x.meta.wheelPrev == old(x.meta.wheelPrev) && x.meta.wheelNext == old(x.meta.wheelNext))
-	}))
-	ensures("frame_lists", all(func(m *List[K, V]) bool {
-		return imp(m != l, m.len == old(m.len) && m.count == old(m.count) && all(func(x *Entry[K, V]) bool {
-			return gh_po_in(m, x) == old(gh_po_in(m, x)) && gh_po_ord(m, x) == old(gh_po_ord(m, x))
-		}))
-	}))
+	ensures("frame_other_kind", sp_otherKindSame(l))
+	ensures("nonmembers", all(func(x *Entry[K, V]) bool { return imp(!sp_node(l, x, l.listType), sp_linksSame(x)) }))
+	ensures("sizes_others", all(func(m *List[K, V]) bool { return imp(m != l, m.len == old(m.len) && m.count == old(m.count)) }))
+	ensures("ghost_others", sp_ghostOthersSame(l))
+	ensures("others", sp_othersKeep(l, e))
 }
 
 // the element with the smallest label (most recently pushed to the front), nil iff empty
 func (l *List[K, V]) spec_Front() (r *Entry[K, V]) {
-	requires("inv", sp_listShape(l) && sp_listOrder(l))
-	ensures("nil_iff_empty", (r == nil) == all(func(x *Entry[K, V]) bool { return !gh_po_in(l, x) }))
-	ensures("first", imp(r != nil, gh_po_in(l, r) && sp_pv(r, l.listType) == &l.root && all(func(y *Entry[K, V]) bool { return imp(gh_po_in(l, y), gh_po_ord(l, r) <= gh_po_ord(l, y)) })))
+	reveal("op_ring", "op_wring", "op_acct", "op_flags")
+	requires("inv", sp_ring(l))
+	ensures("nil_iff_empty", (r == nil) == all(func(x *Entry[K, V]) bool { return !sp_in(l, x, l.listType) }))
+	ensures("first", imp(r != nil, sp_in(l, r, l.listType) && sp_pv(r, l.listType) == &l.root && all(func(y *Entry[K, V]) bool {
+		return imp(sp_in(l, y, l.listType), sp_ord(l, r, l.listType) <= sp_ord(l, y, l.listType))
+	})))
+	ensures("nonempty", imp(op_acct(l) && l.len != 0, r != nil))
+	ensures("count_pos", imp(op_acct(l), l.count >= 0 && imp(r != nil, l.count >= 1)))
 	return
 }
 
 // the element with the largest label (least recently used end), nil iff empty
 func (l *List[K, V]) spec_Back() (r *Entry[K, V]) {
-	requires("inv", sp_listShape(l) && sp_listOrder(l))
-	ensures("nil_iff_empty", (r == nil) == all(func(x *Entry[K, V]) bool { return !gh_po_in(l, x) }))
-	ensures("last", imp(r != nil, gh_po_in(l, r) && sp_nx(r, l.listType) == &l.root && all(func(y *Entry[K, V]) bool { return imp(gh_po_in(l, y), gh_po_ord(l, y) <= gh_po_ord(l, r)) })))
+	reveal("op_ring", "op_wring", "op_acct", "op_flags")
+	requires("inv", sp_ring(l))
+	ensures("nil_iff_empty", (r == nil) == all(func(x *Entry[K, V]) bool { return !sp_in(l, x, l.listType) }))
+	ensures("last", imp(r != nil, sp_in(l, r, l.listType) && sp_nx(r, l.listType) == &l.root && sp_pv(r, l.listType) != nil && all(func(y *Entry[K, V]) bool {
+		return imp(sp_in(l, y, l.listType), sp_ord(l, y, l.listType) <= sp_ord(l, r, l.listType))
+	})))
+	ensures("nonempty", imp(op_acct(l) && l.len != 0, r != nil))
+	ensures("count_pos", imp(op_acct(l), l.count >= 0 && imp(r != nil, l.count >= 1)))
 	return
 }
 
@@ -218,44 +326,50 @@ func (l *List[K, V]) spec_Len() (n int) {
 
 // remove and return the back element; nil iff the list is empty
 func (l *List[K, V]) spec_PopTail() (r *Entry[K, V]) {
-	requires("inv", sp_listShape(l) && sp_listOrder(l))
+	reveal("op_ring", "op_wring", "op_acct", "op_flags")
+	requires("inv", sp_ring(l))
 	if r != nil {
-		set(gh_po_in(l, r), false)
+		if l.listType == WHEEL_LIST {
+			set(gh_po_win(l, r), false)
+		} else {
+			set(gh_po_in(l, r), false)
+		}
 	}
-	ensures("nil_iff_empty", (r == nil) == old(all(func(x *Entry[K, V]) bool { return !gh_po_in(l, x) })))
-	ensures("was_last", imp(r != nil, old(gh_po_in(l, r)) && all(func(y *Entry[K, V]) bool { return imp(old(gh_po_in(l, y)), gh_po_ord(l, y) <= gh_po_ord(l, r)) })))
-	ensures("member", imp(r != nil, !gh_po_in(l, r)) && all(func(x *Entry[K, V]) bool { return imp(x != r, gh_po_in(l, x) == old(gh_po_in(l, x))) }))
-	ensures("labels", all(func(x *Entry[K, V]) bool { return gh_po_ord(l, x) == old(gh_po_ord(l, x)) }))
+	ensures("nil_iff_empty", (r == nil) == old(all(func(x *Entry[K, V]) bool { return !sp_in(l, x, l.listType) })))
+	ensures("was_last", imp(r != nil, old(sp_in(l, r, l.listType)) && all(func(y *Entry[K, V]) bool {
+		return imp(old(sp_in(l, y, l.listType)), sp_ord(l, y, l.listType) <= sp_ord(l, r, l.listType))
+	})))
+	ensures("member", imp(r != nil, !sp_in(l, r, l.listType)) && all(func(x *Entry[K, V]) bool { return imp(x != r, sp_in(l, x, l.listType) == old(sp_in(l, x, l.listType))) }))
+	ensures("frame_labels", all(func(x *Entry[K, V]) bool { return sp_ord(l, x, l.listType) == old(sp_ord(l, x, l.listType)) }))
 	ensures("unlinked", imp(r != nil, sp_nx(r, l.listType) == nil && sp_pv(r, l.listType) == nil))
-	ensures("shape", sp_listShape(l))
-	ensures("order", sp_listOrder(l))
+	ensures("ring", sp_ring(l))
+	ensures("acct", imp(old(op_acct(l)), op_acct(l)))
+	ensures("flags", imp(old(op_flags(l)), op_flags(l)))
+	ensures("not_root", imp(old(op_flags(l)) && r != nil, !sp_isRoot(r.flag.Flags)))
+	ensures("nonempty", imp(old(op_acct(l)) && old(l.len) != 0, r != nil))
+	ensures("count_pos", imp(old(op_acct(l)), old(l.count) >= 0 && imp(r != nil, old(l.count) >= 1)))
 	ensures("len", imp(r != nil, l.len == old(l.len)-r.policyWeight && l.count == old(l.count)-1) && imp(r == nil, l.len == old(l.len) && l.count == old(l.count)))
 	ensures("flag", imp(r != nil, r.flag.Flags == ifelse(l.listType == WHEEL_LIST, old(r.flag.Flags), old(r.flag.Flags)&^(2|4|64))))
-	ensures("other_flags", all(func(x *Entry[K, V]) bool { return imp(x != r, x.flag.Flags == old(x.flag.Flags)) }))
-	ensures("weights", all(func(x *Entry[K, V]) bool { return x.policyWeight == old(x.policyWeight) }))
-	ensures("frame_other_kind", all(func(x *Entry[K, V]) bool {
-		return imp(l.listType == WHEEL_LIST, x.meta.prev == old(x.meta.prev) && x.meta.next == old(x.meta.next)) &&
-			imp(l.listType != WHEEL_LIST, x.meta.wheelPrev == old(x.meta.wheelPrev) && x.meta.wheelNext == old(x.meta.wheelNext))
-	}))
-	ensures("frame_nonmembers", all(func(x *Entry[K, V]) bool {
-		return imp(!old(sp_node(l, x)), x.meta.prev == old(x.meta.prev) && x.meta.next == old(x.meta.next) && x.meta.wheelPrev == old(x.meta.wheelPrev) && x.meta.wheelNext == old(x.meta.wheelNext))
-	}))
-	ensures("frame_lists", all(func(m *List[K, V]) bool {
-		return imp(m != l, m.len == old(m.len) && m.count == old(m.count) && all(func(x *Entry[K, V]) bool {
-			return gh_po_in(m, x) == old(gh_po_in(m, x)) && gh_po_ord(m, x) == old(gh_po_ord(m, x))
-		}))
-	}))
+	ensures("flags_others", all(func(x *Entry[K, V]) bool { return imp(x != r, x.flag.Flags == old(x.flag.Flags)) }))
+	ensures("weights_same", all(func(x *Entry[K, V]) bool { return x.policyWeight == old(x.policyWeight) }))
+	ensures("frame_other_kind", sp_otherKindSame(l))
+	ensures("nonmembers", all(func(x *Entry[K, V]) bool { return imp(!old(sp_node(l, x, l.listType)), sp_linksSame(x)) }))
+	ensures("sizes_others", all(func(m *List[K, V]) bool { return imp(m != l, m.len == old(m.len) && m.count == old(m.count)) }))
+	ensures("ghost_others", sp_ghostOthersSame(l))
+	ensures("others", sp_othersKeep(l, r))
 	return
 }
 
 // a new, empty list
 func spec_NewList[K comparable, V any](size uint, listType uint8) (l *List[K, V]) {
+	reveal("op_ring", "op_wring", "op_acct", "op_flags")
 	requires("type", sp_validType(listType))
 	setall(gh_po_in(l, nil), false)
+	setall(gh_po_win(l, nil), false)
 	ensures("fresh", l != nil && fresh(l))
-	ensures("empty", all(func(x *Entry[K, V]) bool { return !gh_po_in(l, x) }) && l.len == 0 && l.count == 0 && l.capacity == size && l.listType == listType)
-	ensures("shape", sp_listShape(l))
-	ensures("order", sp_listOrder(l))
+	ensures("empty", all(func(x *Entry[K, V]) bool { return !gh_po_in(l, x) && !gh_po_win(l, x) }) && l.len == 0 && l.count == 0 && l.capacity == size && l.listType == listType)
+	ensures("ring", sp_ring(l) && sp_isRoot(l.root.flag.Flags))
+	ensures("acct", imp(listType != WHEEL_LIST, op_acct(l)) && op_flags(l))
 	return
 }
 
